@@ -205,15 +205,15 @@ theorem C12_cmap_copy (h : List Op) (name : Nat) (ext : List (Nat × Nat)) :
 /-! ## Why the discipline matters: proved counter-examples for two broken disciplines -/
 
 /-- `get_encoding` WITHOUT the copy: the differences are written into the shared table. -/
-def getEncodingNoCopy (enc : List (List (Nat × Nat))) (base : Nat) (diffs : List (Nat × Nat)) :
+def getEncodingNoCopy (enc : List (List (Nat × Nat))) (base : Nat) (diffs : List (Nat × Option Nat)) :
     List (Nat × Nat) × List (List (Nat × Nat)) :=
   (getEncoding enc base diffs, enc.set base (getEncoding enc base diffs))
 
 /-- Without the copy a later font with the same base encoding and no differences inherits the
 differences of an earlier font: its table is not the fresh one (history dependence). -/
-theorem nocopy_cex : ∃ (enc : List (List (Nat × Nat))) (base : Nat) (diffs : List (Nat × Nat)),
+theorem nocopy_cex : ∃ (enc : List (List (Nat × Nat))) (base : Nat) (diffs : List (Nat × Option Nat)),
     getEncoding (getEncodingNoCopy enc base diffs).2 base [] ≠ getEncoding enc base [] :=
-  ⟨[[(65, 65)]], 0, [(65, 8364)], by decide⟩
+  ⟨[[(65, 65)]], 0, [(65, some 8364)], by decide⟩
 
 /-- A memo table is only sound for the `fresh` function it was filled under: answering document 2
 (`fresh₂`) from a cache filled by document 1 (`fresh₁`) under the same key returns document 1's
@@ -232,12 +232,12 @@ machine on an interleaved history and show that the results are non-trivial and 
 the documents. -/
 
 def W0 : World :=
-  { encInit := [[(65, 65), (66, 66)], [(65, 97), (66, 98)], [], []],
+  { encInit := [[(65, 65), (66, 66)], [(65, 97), (66, 98), (69, 101)], [], []],
     loadCMap := fun k => if k = 1 then some [(65, 5), (66, 6)] else none,
     loadUMap := fun k => if k = 1 then some [(5, 12354)] else none }
 
 def simpleFont : FontSpec :=
-  { kind := 0, base := 1, diffs := [(66, 8364)], hasToUnicode := true, tounicode := [(67, [102, 105])],
+  { kind := 0, base := 1, diffs := [(66, some 8364), (69, none)], hasToUnicode := true, tounicode := [(67, [102, 105])],
     cmap := 0, umap := 0, usecmap := 1, reads := [4] }
 
 def cjkFont : FontSpec :=
@@ -248,7 +248,7 @@ def docA : DocSpec :=
   { objs := [(1, .direct 101), (2, .direct 102), (3, .direct 103), (4, .direct 104), (10, .direct 110),
              (11, .direct 111), (12, .direct 112)],
     fontSpecs := [(3, simpleFont)], openReads := [1],
-    pages := [⟨[2, 10], [.byId 3], [11], [(0, [65, 66, 67, 68])]⟩,
+    pages := [⟨[2, 10], [.byId 3], [11], [(0, [65, 66, 67, 68, 69])]⟩,
               ⟨[12], [.byId 3, .direct simpleFont], [11], [(1, [66]), (0, [65])]⟩] }
 
 def docB : DocSpec :=
@@ -262,9 +262,10 @@ def hist0 : List Op :=
   [.open 1 docA true [], .open 2 docB true [], .next 1, .next 2, .extract docB false [], .parseCMap 1 [(65, 7)],
    .next 1, .next 2, .next 1, .extract docA true [1], .close 1]
 
-/-- docA page 0 decodes through MacRoman + Differences + ToUnicode: a, €, "fi", (cid:68) -/
+/-- docA page 0 decodes through MacRoman + Differences + ToUnicode: a, €, "fi", (cid:68), and
+(cid:69) because /Differences re-assigns code 69 to a glyph name without unicode value -/
 example : (pagesSpec W0 docA []).map (·.glyphs) =
-    [[[[97], [8364], [102, 105], [1114180]]], [[[8364]], [[97]]]] := by decide
+    [[[[97], [8364], [102, 105], [1114180], [1114181]]], [[[8364]], [[97]]]] := by decide
 
 /-- docB page 0 decodes through the predefined CMap and the unicode map: あ, (cid:6); code 67 has no glyph -/
 example : (pagesSpec W0 docB []).map (·.glyphs) = [[[[12354], [1114118]]]] := by decide
